@@ -1,3 +1,4 @@
+import Oidc.Shapes
 import Oidc.Proofs.Handler3
 import Oidc.Proofs.Handler
 /-! # C10 — identity headers seen downstream come only from the verified session (property theorems only)
@@ -74,5 +75,9 @@ def exR : Req where
   hdrs := [("X-User-Groups".toList, "admin".toList), ("X-Other".toList, "kept".toList)]
 example : (downstreamHdrs exC exE exR "a@b".toList "T".toList).filter (fun h => h.1 == "X-User-Groups".toList) = [] := by decide +kernel
 example : (downstreamHdrs exC exE exR "a@b".toList "T".toList).filter (fun h => h.1 == "X-Other".toList) = [("X-Other".toList, "kept".toList)] := by decide +kernel
+
+/-! obligations against the regenerated shapes: the functions these theorems rest on still have the steps, guards, status
+    codes and literals the model was written against (`Oidc/Shapes.lean`) -/
+theorem shape_processAuthorizedRequest_ok : Oidc.Shapes.Shape_processAuthorizedRequest := by unfold Oidc.Shapes.Shape_processAuthorizedRequest; rfl
 
 end Oidc.Props.C10
